@@ -288,6 +288,32 @@ func runC13(c *eng.Ctx) {
 	c.Rule("R13.6", "K2")
 	if fn := c.Fn("server.(*subscription).Close"); fn != nil {
 		closedF := p.Field("server", "subscription", "closed")
+		// Close may hand over to a sibling method (Close → CloseWithStatus(nil)): the rule is decided where the channel is closed
+		for hop := 0; hop < 2; hop++ {
+			has := false
+			eng.Instrs(fn, func(in ssa.Instruction) {
+				if call, ok := in.(*ssa.Call); ok {
+					if b, ok := call.Call.Value.(*ssa.Builtin); ok && b.Name() == "close" {
+						has = true
+					}
+				}
+			})
+			if has {
+				break
+			}
+			var next *ssa.Function
+			eng.Instrs(fn, func(in ssa.Instruction) {
+				if call, ok := in.(*ssa.Call); ok {
+					if f := call.Common().StaticCallee(); f != nil && f.Signature.Recv() != nil && strings_HasPrefix(ir.FuncKey(f), "server.(*subscription).") {
+						next = f
+					}
+				}
+			})
+			if next == nil {
+				break
+			}
+			fn = next
+		}
 		var closes []ssa.Instruction
 		eng.Instrs(fn, func(in ssa.Instruction) {
 			if call, ok := in.(*ssa.Call); ok {
@@ -368,7 +394,23 @@ func runC13(c *eng.Ctx) {
 					desc = "guarded only by equality of " + eng.Describe(bo.X) + " and " + eng.Describe(bo.Y) + " (a copyable value)"
 				}
 			}
-			c.Check(ident, "de-registration in "+ir.FuncKey(fn), c.Pos(call), "guarded by identity of the subscription", "the loop that ends removes the group entry "+desc+": when the same consumer id re-subscribed, the old loop's exit deletes its successor's entry and a third subscriber is no longer serialised against it")
+			if !ident {
+				// … or the entry's subscription is cancelled right here, under the table's lock, before the entry goes: nobody can
+				// have registered a successor in between
+				closedHere, _ := eng.PrecededBy(fn, call, func(x ssa.Instruction) bool {
+					cc, isC := x.(*ssa.Call)
+					if !isC {
+						return false
+					}
+					f := cc.Common().StaticCallee()
+					return f != nil && (ir.FuncKey(f) == "server.(*subscription).Close" || ir.FuncKey(f) == "server.(*subscription).CloseWithStatus")
+				})
+				la := eng.LocksOf(p, fn, 0)
+				if closedHere && lockHeld(la.At(call), "consumersMu", 2) {
+					ident = true
+				}
+			}
+			c.Check(ident, "de-registration in "+ir.FuncKey(fn), c.Pos(call), "guarded by identity of the subscription (or the subscription is cancelled in the same critical section)", "the loop that ends removes the group entry "+desc+": when the same consumer id re-subscribed, the old loop's exit deletes its successor's entry and a third subscriber is no longer serialised against it")
 		})
 	}
 	if n == 0 {
@@ -380,6 +422,8 @@ func runC13(c *eng.Ctx) {
 	ruleIdentityCheckAndDeleteAtomic(c)
 	c.Rule("R13.1", "K4")
 	ruleConsumersTableNeverReset(c)
+	c.Rule("R13.8", "K2")
+	ruleLeadershipLossCancelsGroupSubscribers(c)
 
 }
 
